@@ -91,27 +91,27 @@ Qed.
 
 (* the matrix produced by a well-formed matrix block *)
 Theorem matrix_item_cells :
-  forall (al : alpha) (po : bool) (sep syms : str) (rows : list prow) (idx : list nat),
-  item_ok al (IMatrix po sep syms rows) = true -> sym_indices al syms = Some idx ->
-  exists m, item_matrix al (IMatrix po sep syms rows) = Some m /\ length m = length rows /\
+  forall (al : alpha) (po : bool) (syms : list (str * byte)) (rows : list prow) (idx : list nat),
+  item_ok al (IMatrix po syms rows) = true -> sym_indices al (sym_letters syms) = Some idx ->
+  exists m, item_matrix al (IMatrix po syms rows) = Some m /\ length m = length rows /\
   forall i, i < length rows ->
     let row := nth i m [] in
-    let toks := pr_toks (nth i rows (mkRow [] [] [])) in
+    let toks := row_toks (nth i rows (mkRow [] [] [])) in
     length row = alpha_k al /\
     (forall j, j < length syms ->
-       sym_index al (nth j syms x00) = Some (nth j idx 0) /\
+       sym_index al (nth j (sym_letters syms) x00) = Some (nth j idx 0) /\
        nth (nth j idx 0) row CZero = CTok (nth j toks [])) /\
     (forall k, ~ In k idx -> nth k row CZero = CZero).
 Proof.
-  intros al po sep syms rows idx Hok Hs. cbn [item_matrix]. rewrite Hs.
-  exists (build_matrix al idx (map pr_toks rows)). split; [reflexivity|].
+  intros al po syms rows idx Hok Hs. cbn [item_matrix]. rewrite Hs.
+  exists (build_matrix al idx (map row_toks rows)). split; [reflexivity|].
   unfold build_matrix. rewrite !map_length. split; [reflexivity|].
   intros i Hi. cbv zeta.
-  assert (Hrow : nth i (map (build_row al idx) (map pr_toks rows)) [] =
-                 build_row al idx (pr_toks (nth i rows (mkRow [] [] [])))).
-  { rewrite map_map. rewrite nth_indep with (d' := build_row al idx (pr_toks (mkRow [] [] [])));
+  assert (Hrow : nth i (map (build_row al idx) (map row_toks rows)) [] =
+                 build_row al idx (row_toks (nth i rows (mkRow [] [] [])))).
+  { rewrite map_map. rewrite nth_indep with (d' := build_row al idx (row_toks (mkRow [] [] [])));
       [|rewrite map_length; exact Hi].
-    apply (map_nth (fun x => build_row al idx (pr_toks x))). }
+    apply (map_nth (fun x => build_row al idx (row_toks x))). }
   rewrite Hrow. cbn [item_ok] in Hok.
   apply andb_true_iff in Hok. destruct Hok as [Hok Hrows].
   apply andb_true_iff in Hok. destruct Hok as [Hok _].
@@ -122,7 +122,11 @@ Proof.
   unfold row_ok in Hr. apply andb_true_iff in Hr. destruct Hr as [Hr _].
   apply andb_true_iff in Hr. destruct Hr as [Hr _].
   apply andb_true_iff in Hr. destruct Hr as [_ Hlen]. apply Nat.eqb_eq in Hlen.
-  exact (build_row_spec al syms idx _ Hs Hnd Hlen).
+  assert (Hlen' : length (row_toks (nth i rows (mkRow [] [] []))) = length (sym_letters syms)).
+  { unfold row_toks, sym_letters. rewrite !map_length. exact Hlen. }
+  pose proof (build_row_spec al (sym_letters syms) idx _ Hs Hnd Hlen') as K.
+  assert (LL : length (sym_letters syms) = length syms) by apply map_length.
+  rewrite LL in K. exact K.
 Qed.
 
 (* the expected record in closed form *)
@@ -137,10 +141,10 @@ Proof.
   induction p as [|it p IH]; intros r; [destruct r; cbn; rewrite app_nil_r; reflexivity|].
   cbn [fold_left]. rewrite IH. cbn [last_field last_matrix refs_of].
   destruct (last_field FID p), (last_field FAC p), (last_field FNA p), (last_field FDE p), (last_matrix al p);
-    destruct it as [num xref lines|[] pad v|k v| |t ts|d m y c au|po sep syms rows];
+    destruct it as [num xref lines|[] pad v|k v| |t ts|d m y c au|po syms rows];
     cbn [apply_item add_ref set_field item_matrix fieldk_eqb pick r_id r_ac r_name r_desc r_data r_refs];
     try rewrite <- app_assoc; try reflexivity;
-    try (destruct (sym_indices al syms); reflexivity).
+    try (destruct (sym_indices al (sym_letters syms)); reflexivity).
 Qed.
 
 Theorem expected_record_closed_lemma al (p : prec) :
